@@ -10,10 +10,11 @@ MANIFEST = {
     "text": "Theorems (all lists, unbounded, any hash): folding Append over a list yields root = LIP-0031 batch root (split at the "
             "largest power of two < n), size = length and append path = roots of the perfect sub-trees of the binary expansion; "
             "the (repaired) CalculateRootFromAppendPath predicts exactly the state Append produces; the original code is refuted by a "
-            "computed witness. Proof verification: soundness/completeness theorems are stated on the structural reference verifier "
-            "(see docs/C11.md for what is partial). The faithful executable model of GenerateProof/VerifyProof/Update/right witness "
-            "index arithmetic is tied to the Go code by running both on every case and comparing idxs, sibling hashes, verdicts and "
-            "roots; every implementation answer is also checked against the declarative oracle (mroot of the (modified) list).",
+            "computed witness. Proof generation / verification / update through a proof / right witnesses are NOT proved in Coq "
+            "(partial, see docs/C11.md): their faithful executable transcription (index arithmetic with the leading-1 encoding, "
+            "layer structure, sibling search, path-node computation) is tied to the Go code by running both on every case and comparing "
+            "idxs, sibling hashes, verdicts and roots; every implementation answer is also checked against the declarative oracle "
+            "(mroot of the (modified) list; honest proofs verify, every tampering is rejected).",
     "note": "Trusted: Coq kernel + vm_compute, in-Coq SHA-256 (checked on FIPS vectors), fidelity of the hand model as sampled by the "
             "correspondence, Go harness and Python glue. SHA-256 collision freeness is a hypothesis of the soundness theorems only.",
 }
@@ -95,6 +96,15 @@ def balance(rs, cost, shard):
 
 
 def evaluate(ck, recs):
+    broken = [r for r in recs if (r.get("panic") or "").startswith(("setup:", "Append:"))]
+    recs = [r for r in recs if r not in broken]
+    for r in broken:
+        ck.count()
+        f = dict(kind="input", key="c11:%s:setup-failure" % r["k"], case=r,
+                 what="rmt %s: building the tree failed: %s on %s" % (r["k"], r["panic"], json.dumps(r)[:300]),
+                 theorem_or_correspondence="harness c11 vs pkg/trie/rmt")
+        f["spec_violated"] = True
+        ck.failures.append(f)
     for kind, (typ, fn, term, shard) in KINDS.items():
         rs = [r for r in recs if r["k"] == kind]
         if not rs:
